@@ -144,6 +144,16 @@ class For(Node):
         return "%% for %s in %s:\n%s%% endfor\n" % (tgt, it, "".join(n.src() for n in self.body))
 
 
+class If(Node):
+    """% if True:  … % endif  – a control block of the same function"""
+
+    def __init__(self, body):
+        self.body = body
+
+    def src(self):
+        return "% if True:\n" + "".join(n.src() for n in self.body) + "% endif\n"
+
+
 class Def(Node):
     """<%def name="f(params)">; params: list of (name, default tag or None)"""
 
@@ -277,6 +287,8 @@ def own_assigned(nodes):
         elif isinstance(n, For):
             res.update(n.names)
             res |= own_assigned(n.body)
+        elif isinstance(n, If):
+            res |= own_assigned(n.body)
     return res
 
 
@@ -285,7 +297,7 @@ def own_defs(nodes, toplevel):
     for n in nodes:
         if isinstance(n, Def) and not toplevel:
             res[n.name] = n
-        elif isinstance(n, For):
+        elif isinstance(n, (For, If)):
             res.update(own_defs(n.body, toplevel))
     return res
 
@@ -302,7 +314,7 @@ def all_top_defs(t):
                 walk(n.body, False)
             elif isinstance(n, AnonBlock):
                 walk(n.body, False)
-            elif isinstance(n, For):
+            elif isinstance(n, (For, If)):
                 walk(n.body, root)
     walk(t.body, True)
     return res
@@ -404,6 +416,8 @@ class Reference:
             elif isinstance(n, For):
                 for x in n.names:
                     fr.values[x] = n.tag
+                self.exec_nodes(n.body, fr, root)
+            elif isinstance(n, If):
                 self.exec_nodes(n.body, fr, root)
             elif isinstance(n, Def):
                 pass
